@@ -44,10 +44,39 @@ def ckd_uf(E, k, c, i):
     return kk, cc
 
 
+# Hybrid mode: selected ckd calls run the REAL code (so that the invalid-child outcomes of BIP32 -- IL >= n, zero key,
+# point at infinity -- exist on the path), all others use the contract.  REAL_CALLS[kind] is a set of 1-based call
+# numbers counted from the moment real_calls() was invoked on the current path.
+REAL_CALLS = {"prv": set(), "pub": set()}
+_COUNT = {"prv": 0, "pub": 0}
+_ORIG = {}
+
+
+def real_calls(prv=(), pub=()):
+    REAL_CALLS["prv"], REAL_CALLS["pub"] = set(prv), set(pub)
+    _COUNT["prv"] = _COUNT["pub"] = 0
+
+
+def _reset_real():
+    real_calls()
+
+
+def _maybe_real(kind, self, index):
+    if not REAL_CALLS[kind]:
+        return None
+    _COUNT[kind] += 1
+    if _COUNT[kind] in REAL_CALLS[kind] and kind in _ORIG:
+        return _ORIG[kind]
+    return None
+
+
 def _prv_ckd(self, index):
     """summary of PrvKeyNode.ckd"""
     from sx import env, core
     import z3
+    real = _maybe_real("prv", self, index)
+    if real is not None:
+        return real(self, index)
     if isinstance(index, int) and not 0 <= index < 2 ** 32 or (not isinstance(index, int) and (bool(index < 0) or bool(index >= 2 ** 32))):
         raise OverflowError("int too big to convert")
     kb = self.key[1:] if len(self.key) == 33 else self.key
@@ -65,6 +94,9 @@ def _pub_ckd(self, index):
     """summary of PubKeyNode.ckd"""
     from sx import env, core
     import z3
+    real = _maybe_real("pub", self, index)
+    if real is not None:
+        return real(self, index)
     if (index >= HARD) if isinstance(index, int) else bool(index >= HARD):
         raise RuntimeError("failure: hardened child for public ckd")
     if (index < 0) if isinstance(index, int) else bool(index < 0):
@@ -86,7 +118,11 @@ def _pub_ckd(self, index):
 
 
 def install_ckd_summary(R):
-    from sx import instrument
+    from sx import instrument, core
+    _ORIG["prv"] = R.bip32.PrvKeyNode.__dict__["ckd"]
+    _ORIG["pub"] = R.bip32.PubKeyNode.__dict__["ckd"]
+    if _reset_real not in core.PATH_HOOKS:
+        core.PATH_HOOKS.append(_reset_real)
     instrument.register(R.bip32.PrvKeyNode.__dict__["ckd"], _prv_ckd)
     instrument.register(R.bip32.PubKeyNode.__dict__["ckd"], _pub_ckd)
 
